@@ -120,21 +120,7 @@ def run(ctx):
     ok = (x.get("opcode") == "<" and lref == {ps2[0]["id"]} and rref == {ps2[1]["id"]}) or (x.get("opcode") == ">" and lref == {ps2[1]["id"]} and rref == {ps2[0]["id"]})
     _r054(ctx, u)
     from . import C04
-    import re as _re
-    up = ctx.ast("ports.cpp")
-    c1, c2, c3 = u.function("rtosc_match_args"), up.function("arg_matcher"), up.function("Port_Matcher::rtosc_match_args")
-
-    def leaf(t):
-        t = _re.sub(r'rtosc_argument_string\(v1\)', 'ARGS', t)
-        t = _re.sub(r'= v1;', '= ARGS;', t)
-        t = _re.sub(r'\b_Bool\b', 'bool', t)
-        t = _re.sub(r'\btrue\b', '1', t)
-        return _re.sub(r'\bfalse\b', '0', t)
-    n1, n2, n3 = leaf(C04.norm_matcher(u, c1)), leaf(C04.norm_matcher(up, c2)), leaf(C04.norm_matcher(up, c3))
-    ctx.ob("R05.5", "dispatch.c:rtosc_match_args == ports.cpp:Port_Matcher::rtosc_match_args", n1 == n3, site=A.where(c1), detail={"dispatch.c": n1[:300], "ports.cpp": n3[:300]},
-           what="the type-alternative matcher of dispatch.c differs from the copy the hashed lookup uses")
-    ctx.ob("R05.5", "dispatch.c:rtosc_match_args == ports.cpp:arg_matcher", n1 == n2, site=A.where(c1), detail={"dispatch.c": n1[:300], "ports.cpp": n2[:300]},
-           what="the type-alternative matcher of dispatch.c differs from arg_matcher")
+    C04.matcher_clone_obligations(ctx, "R05.5")
     ctx.ob("R05.3", "rtosc_match_partial", ok, site=A.where(x), detail={"comparison": A.src(x)}, what="rtosc_match_partial bounds an enumeration with `%s`" % A.src(x))
 
 
